@@ -8,6 +8,7 @@
 //! pipeline (cfg-gated entry point `crux_cli::codegen::verif::run`), with the oracle evaluated on
 //! every run. The families are NOT "all orders"; see `assumptions` in the evidence.
 
+mod depgraph;
 mod reference;
 mod remap;
 
@@ -173,6 +174,10 @@ struct Case {
     /// trade places in the enum's declared `variants` list; the registry has to follow
     #[serde(default, skip_serializing_if = "Option::is_none")]
     declared_swap: Option<DeclaredSwap>,
+    /// the description is not a bundled one but a crate-reference graph synthesized from bundled
+    /// descriptions by re-typing fields (dependency-graph dimension, see depgraph.rs)
+    #[serde(default, skip_serializing_if = "Option::is_none")]
+    dep_graph: Option<depgraph::DepGraph>,
 }
 
 #[derive(Serialize, Deserialize, Clone, Debug, PartialEq, Eq, PartialOrd, Ord)]
@@ -225,18 +230,20 @@ impl Numbering {
     }
 }
 
-fn numbering_of(fx: &Fixtures, r: &Renumber) -> BTreeMap<String, Numbering> {
+fn numbering_of(fx: &Fixtures, r: &Renumber, graph: Option<&depgraph::DepGraph>) -> BTreeMap<String, Numbering> {
     let mut m = BTreeMap::new();
+    // a synthesized graph adds one path id per out-edge of a crate, right above the largest id
+    let max_id = |c: &String| fx.max_id[c] + graph.map_or(0, |g| depgraph::extra_ids(g, c));
     match r {
         Renumber::Identity => {}
         Renumber::Reverse { crates } => {
             for c in crates {
-                m.insert(c.clone(), Numbering::Reverse(fx.max_id[c]));
+                m.insert(c.clone(), Numbering::Reverse(max_id(c)));
             }
         }
         Renumber::Offset { crates } => {
             for c in crates {
-                m.insert(c.clone(), Numbering::Offset(u32::MAX - fx.max_id[c]));
+                m.insert(c.clone(), Numbering::Offset(u32::MAX - max_id(c)));
             }
         }
         Renumber::Transpose { krate, a, b } => {
@@ -279,7 +286,7 @@ impl<F: Fn()> Drop for Defer<F> {
 
 fn execute(fx: &Fixtures, case: &Case) -> RunResult {
     let t0 = Instant::now();
-    let numbering = Arc::new(numbering_of(fx, &case.renumber));
+    let numbering = Arc::new(numbering_of(fx, &case.renumber, case.dep_graph.as_ref()));
     let names = Arc::new(fx.all_names.clone());
     let crate_index = {
         let names = names.clone();
@@ -382,9 +389,15 @@ fn execute(fx: &Fixtures, case: &Case) -> RunResult {
             .crates
             .get(name)
             .ok_or_else(|| anyhow::anyhow!("no bundled description for crate {name}"))?;
-        let mut out = match numbering.get(name).copied() {
-            None | Some(Numbering::Identity) => (**c).clone(),
-            Some(n) => remap::remap_ids(&**c, &|id| n.fwd(id)),
+        let retyped: Option<Crate> = case.dep_graph.as_ref().filter(|g| depgraph::extra_ids(g, name) > 0).map(|g| {
+            let mut k = (**c).clone();
+            depgraph::retype(&mut k, name, g, fx.max_id[name]);
+            k
+        });
+        let mut out = match (numbering.get(name).copied(), retyped) {
+            (None | Some(Numbering::Identity), Some(k)) => k,
+            (None | Some(Numbering::Identity), None) => (**c).clone(),
+            (Some(n), k) => remap::remap_ids(k.as_ref().unwrap_or(&**c), &|id| n.fwd(id)),
         };
         if let Some(s) = case.declared_swap.as_ref().filter(|s| s.krate == name) {
             // (only combined with the identity numbering)
@@ -527,6 +540,7 @@ fn baseline_case(description: &str, deps: &[String]) -> Case {
         renumber: Renumber::Identity,
         load_priority: deps.to_vec(),
         declared_swap: None,
+        dep_graph: None,
     }
 }
 
@@ -554,6 +568,7 @@ fn plan(fx: &Fixtures, description: &str, base: &RunOut, tier: Tier, scope: &BTr
         renumber,
         load_priority: prio.to_vec(),
         declared_swap: None,
+        dep_graph: None,
     };
     let mut cases = vec![];
 
@@ -933,6 +948,9 @@ fn describe_case(fx: &Fixtures, c: &Case) -> String {
             s += &format!(" [{krate}#{id} = {}]", item_name(krate, *id));
         }
     }
+    if let Some(g) = &c.dep_graph {
+        s += &format!(", description synthesized with crate references [{}]", depgraph::shape_name(g));
+    }
     if let Some(sw) = &c.declared_swap {
         s += &format!(
             ", declared variants at positions {} and {} of enum {}#{} ({}) swapped",
@@ -966,6 +984,9 @@ fn replay(fx: &Fixtures, path: &str) -> i32 {
     let case: Case = serde_json::from_value(v["case"]["case"].clone())
         .unwrap_or_else(|e| machinery_error(&format!("replay {path} has no case: {e}")));
     println!("replay of {}", v["key"]);
+    if case.dep_graph.is_some() {
+        return depgraph::replay(fx, &case);
+    }
     println!("step 1: unperturbed run of description {} (facts ascending id, default load priority)", case.description);
     let probe = match execute(fx, &baseline_case(&case.description, &[])) {
         RunResult::Ok(o) => o,
@@ -1133,6 +1154,11 @@ fn main() {
     // ---- canaries: the oracles must be able to fail --------------------------------------------
     canaries(&fx, &base);
 
+    // ---- dependency-graph dimension (cheap, runs before the large families so that a deadline
+    //      never cuts it) --------------------------------------------------------------------------
+    let mut samples = Samples::new(64);
+    let dep_graphs = depgraph::run_dimension(&fx, &base, tier, &reporter, &deadline, &mut samples);
+
     // ---- plan -----------------------------------------------------------------------------------
     // designated description of a dependent crate: fewest loaded crates, then name
     let mut designated: BTreeMap<String, String> = BTreeMap::new();
@@ -1197,7 +1223,6 @@ fn main() {
     let mut load_sequences: BTreeMap<String, BTreeSet<Vec<String>>> = BTreeMap::new();
     let mut times: Vec<f64> = vec![];
     let mut loader_times: Vec<f64> = vec![];
-    let mut samples = Samples::new(48);
     let mut rechecks = 0u64;
     let mut swaps_not_checkable = 0u64;
     let mut swap_outcomes: BTreeSet<(String, u64)> = BTreeSet::new();
@@ -1411,11 +1436,21 @@ fn main() {
     }
 
     // ---- evidence -------------------------------------------------------------------------------
+    if let Some(dg) = &dep_graphs {
+        runs.fetch_add(dg.runs, Ordering::Relaxed);
+        compared += dg.compared;
+        evaluations += dg.evaluations;
+        states.extend(dg.states.iter().cloned());
+    }
     let total_runs = runs.load(Ordering::Relaxed);
     let baseline_fps: BTreeSet<(String, u64)> = base.iter().map(|(d, b)| (d.clone(), b.fingerprint)).collect();
-    let distinct_nontrivial = states.difference(&baseline_fps).count();
+    let distinct_nontrivial = states.difference(&baseline_fps).count()
+        - dep_graphs.as_ref().map_or(0, |dg| dg.states.len() - dg.nontrivial);
+    if let Some(dg) = dep_graphs.as_ref().filter(|dg| dg.skipped > 0) {
+        skipped.insert(("synthesized crate graphs".into(), "dep-graph".into()), dg.skipped);
+    }
     let total_skipped: u64 = skipped.values().sum();
-    let exhaustive = total_skipped == 0 && base.len() == EXAMPLES.len();
+    let exhaustive = total_skipped == 0 && base.len() == EXAMPLES.len() && dep_graphs.is_some();
     times.sort_by(|a, b| a.partial_cmp(b).unwrap());
     loader_times.sort_by(|a, b| a.partial_cmp(b).unwrap());
     let mut per_description = serde_json::Map::new();
@@ -1470,7 +1505,7 @@ fn main() {
         "rule": "a state is a distinct (description, order fingerprint) pair, the fingerprint being an FNV hash computed inside crux_cli over the exact sequence of (relation, crate, id) facts and edges presented to the two datalog programs in crate processing order; members of the declared-swap family additionally carry a hash of the swap, since they change the description and not the order; a state is non-trivial if it differs from that of the unperturbed run of that description",
         "exhaustive": exhaustive,
         "exhaustive_detail": if exhaustive {
-            format!("all families below were enumerated completely for all {} bundled descriptions at tier {}; renumbering family at this tier = {}", base.len(), tier.name(), renumber_bound)
+            format!("all families below were enumerated completely for all {} bundled descriptions at tier {}, and the dependency-graph dimension completely for its stated bound ({} synthesized graphs x all load orders); renumbering family at this tier = {}", base.len(), tier.name(), dep_graphs.as_ref().map_or(0, |dg| dg.coverage["graphs"].as_u64().unwrap_or(0)), renumber_bound)
         } else {
             format!("deadline cut the enumeration: {total_skipped} planned cases not executed: {:?}", skipped.iter().map(|((d, f), n)| format!("{d}/{f}: {n}")).collect::<Vec<_>>())
         },
@@ -1481,9 +1516,11 @@ fn main() {
             "renumber": renumber_bound,
             "load-order": format!("every permutation of the dependent crates as load priority{}", tier.pick("", ", each with ascending and descending fact order")),
             "declared-swap": "semantic counterpart of the order families: for every enum that reaches the formatter (per-item scope as above) and every pair of neighbouring non-skipped variants, the two trade places in the declared variants list; the registry must be the unperturbed one with exactly those two indices exchanged",
+            "dep-graph": "crate-reference graphs with transitive discovery, synthesized from the bundled descriptions by re-typing fields: every DAG on the root and up to 3 further crates x every load order (bound and counts under dependency_graphs)",
             "natural": "unowned runs (real hash-map order, real work-list order): a sample, not part of the exhaustiveness claim",
             "relevant_items": "nodes of the edge relation of the unperturbed run + impls of App/Effect/Capability/Operation, their associated types, their self types, and the fields of App self types",
         },
+        "dependency_graphs": dep_graphs.as_ref().map_or(json!("not run: the descriptions it is built from were excluded"), |dg| dg.coverage.clone()),
         "per_description": per_description,
         "descriptions": base.keys().collect::<Vec<_>>(),
         "distinct_outcomes": outcomes.values().map(|s| s.len()).sum::<usize>(),
@@ -1517,6 +1554,7 @@ fn main() {
                 "quick tier: the per-item members (item first/last, edges of a container first/last, transpositions, declared swaps) for items of a dependent crate are run under one designated description only, and transpositions only between neighbouring relevant items of one kind; the global members (descending order, reversal, offset, all load permutations) run for every description",
                 "thorough tier: per-item members for every loaded crate under every description; all transpositions of two relevant ids of one crate; load permutations with ascending and descending fact order",
             ),
+            "the dependency-graph dimension covers every crate-reference DAG on one root (tap_to_pay) and up to three further crates (crux_time, crux_kv, crux_platform in the stated assignments), one representative per topological labelling, under every load order; larger graphs, other roots, cycles between crates and references to crates without a bundled description are outside the space; its descriptions are bundled ones with re-typed fields, not rustdoc output",
             "order is owned at the three fact vectors, the formatter's edge vector and the crate work list; iteration inside the datalog engine (ascent, FxHash) is deterministic given those and is not permuted separately",
             "only the 7 bundled example descriptions and the 5 bundled crux_* descriptions are inputs; they are snapshots (rustdoc format 42) and cannot be regenerated here",
             "protocol-type agreement compares crux_cli's output on the bundled snapshots with serde-reflection traced from the current sources; a difference that serde's own rules reproduce on the snapshot is attributed to snapshot age and reported, not flagged",
